@@ -879,6 +879,10 @@ def _add_unconditional_containment(field, type_definition, ir, containment):
     contained = ir_util.find_object(base_type.atomic_type.reference, ir)
     if not contained.has_field("structure"):
         return
+    if not ir_util.get_attribute(contained.attribute, attributes.FIXED_SIZE):
+        # A variable-size structure that contains itself uses up its buffer:
+        # `1 [+n]  Foo  f` can never be Ok(), but it is finite.
+        return
     container = ir_util.hashable_form_of_reference(type_definition.name)
     containment.setdefault(container, []).append(
         (ir_util.hashable_form_of_reference(contained.name), field)
@@ -886,7 +890,7 @@ def _add_unconditional_containment(field, type_definition, ir, containment):
 
 
 def _check_that_structures_do_not_always_contain_themselves(ir, errors):
-    """Checks that no structure has itself as an unconditional (sub)field.
+    """Checks that no fixed-size structure has itself as an unconditional (sub)field.
 
     `struct Foo: 0 [+4]  Foo  inner`, or Ping containing Pong containing Ping,
     can be given a size and compiles, but every operation on a view of it -- Ok(),
